@@ -36,7 +36,20 @@ fn conjuncts(e: PT, out: &mut Vec<PT>) {
 fn conj_json(e: PT) -> J {
     let mut v = vec![];
     conjuncts(e, &mut v);
+    drop_true(&mut v);
     J::Array(v.iter().map(pt).collect())
+}
+
+/// `TRUE AND x` is `x`: an empty all-group among other conjuncts may or may not be written (both sides are normalised the same way)
+fn drop_true(v: &mut Vec<PT>) {
+    if v.len() > 1 {
+        let is_true = |p: &PT| matches!(p, PT::Kw(k) if k == "TRUE");
+        if v.iter().all(is_true) {
+            v.truncate(1);
+        } else {
+            v.retain(|p| !is_true(p));
+        }
+    }
 }
 
 fn ident(p: &mut P) -> PRes<String> {
@@ -787,6 +800,7 @@ impl X {
         for e in list {
             conjuncts(self.e(e), &mut out);
         }
+        drop_true(&mut out);
         J::Array(out.iter().map(pt).collect())
     }
     fn num(&self, n: u64) -> J {
